@@ -38,6 +38,13 @@ theorem vOr_some (a : Bool) (b : V Bool) : vOr (some a) b = if a then some true 
 @[simp] theorem vIdx_some (l : List Nat) (i : Nat) : vIdx (some l) i = l[i]? := rfl
 end simpset
 
+/-- every `v… (some _)` reduction: the proofs below use the whole set so that they do not depend on which
+    connectives a (re-written but equivalent) source happens to use -/
+macro "py_simp" : tactic => `(tactic| simp only [vIf_some, vAnd_some_some, vOr_some_some, vNot_some, vLe_some, vLt_some, vGe_some,
+  vGt_some, vEqN_some, vNeN_some, vEqB_some, vNeB_some, vInB_some, vInN_some, vLen_some, vSlice_some, vShr_some, vShl_some,
+  vBand_some, vBor_some, vAdd_some, vLet1_some, vLet2_some, vIdx_some])
+
+
 set_option maxRecDepth 8000 in
 theorem nibble : ∀ n : Fin 256,
     (decide (n.val >>> 4 ≤ 4) && (n.val &&& 15 == 1)) = (decide (n.val / 16 ≤ 4) && decide (n.val % 16 = 1)) := by
@@ -124,11 +131,13 @@ theorem last_eq (d : Bytes) (x : UInt8) : (d.drop (d.length - 1) == [x]) = (d.ge
 
 theorem dht_spec (d : Bytes) : Gen.could_be_dht d = some (Spec.isDht d) := by
   unfold Gen.could_be_dht Spec.isDht
-  simp only [vLen_some, vGt_some, vSlice_some, vEqB_some, vAnd_some_some, vIf_some, slice_0_1, slice_last,
-    take1_eq, last_eq]
-  have : (decide (d.length > 1)) = decide (2 ≤ d.length) := by simp; omega
-  rw [this, Bool.and_assoc]
-  cases (decide (2 ≤ d.length) && (d.head? == some 100 && d.getLast? == some 101)) <;> rfl
+  py_simp
+  simp only [slice_0_1, slice_last, take1_eq, last_eq]
+  have h2 : (decide (d.length > 1)) = decide (2 ≤ d.length) := by simp; omega
+  have h2' : (decide (1 < d.length)) = decide (2 ≤ d.length) := by simp; omega
+  have h2'' : (decide (d.length ≥ 2)) = decide (2 ≤ d.length) := rfl
+  simp only [h2, h2', h2'']
+  cases decide (2 ≤ d.length) <;> cases (d.head? == some 100) <;> cases (d.getLast? == some 101) <;> simp
 
 theorem bt_spec (d : Bytes) : Gen.could_be_bt d = some (Spec.isBT d) := by
   unfold Gen.could_be_bt Spec.isBT
@@ -147,11 +156,16 @@ theorem allowed_spec (fl : List Nat) (pfx d : Bytes) :
       = some (Spec.allowed (fl.contains Gen.PEER_FLAG_EXIT_BT) (fl.contains Gen.PEER_FLAG_EXIT_IPV8) pfx d) := by
   unfold Gen.is_allowed Spec.allowed
   rw [bt_spec, ipv8_spec]
-  simp only [vLet1_some, vInN_some, vAnd_some_some, vNot_some, vSlice_some, vEqB_some, vIf_some]
-  have hc : (pfx == d.take 22) = (d.take 22 == pfx) := BEq.comm
-  rw [show pySlice d none (some (22 : Int)) = d.take 22 from slice_to d 22, hc]
-  cases Spec.isBT d <;> cases Spec.isIPv8 d <;> cases (fl.contains Gen.PEER_FLAG_EXIT_BT) <;>
-    cases (fl.contains Gen.PEER_FLAG_EXIT_IPV8) <;> cases (d.take 22 == pfx) <;> rfl
+  py_simp
+  have h22 : pySlice d none (some (22 : Int)) = d.take 22 := slice_to d 22
+  simp only [h22]
+  -- whatever boolean combination of the five facts the source uses: decide it in all 32 cases
+  by_cases hp : d.take 22 = pfx
+  · cases Spec.isBT d <;> cases Spec.isIPv8 d <;> cases (fl.contains Gen.PEER_FLAG_EXIT_BT) <;>
+      cases (fl.contains Gen.PEER_FLAG_EXIT_IPV8) <;> simp [hp]
+  · have hp' : ¬ pfx = d.take 22 := fun h => hp h.symm
+    cases Spec.isBT d <;> cases Spec.isIPv8 d <;> cases (fl.contains Gen.PEER_FLAG_EXIT_BT) <;>
+      cases (fl.contains Gen.PEER_FLAG_EXIT_IPV8) <;> simp [hp, hp']
 
 /-! ## Part 2: the state machine -/
 
@@ -164,6 +178,23 @@ theorem SameCore.trans {a b c : Sock} (h1 : SameCore a b) (h2 : SameCore b c) : 
   obtain ⟨a1, a2, a3, a4, a5, a6⟩ := h1
   obtain ⟨b1, b2, b3, b4, b5, b6⟩ := h2
   exact ⟨b1.trans a1, b2.trans a2, b3.trans a3, b4.trans a4, b5.trans a5, b6.trans a6⟩
+theorem SameCore.symm {a b : Sock} (h : SameCore a b) : SameCore b a := by
+  obtain ⟨a1, a2, a3, a4, a5, a6⟩ := h
+  exact ⟨a1.symm, a2.symm, a3.symm, a4.symm, a5.symm, a6.symm⟩
+
+/-- same identity and same transports (`enabled` may differ) -/
+def SameNet (s s' : Sock) : Prop :=
+  s'.cid = s.cid ∧ s'.hopIp = s.hopIp ∧ s'.hopPort = s.hopPort ∧ s'.t4 = s.t4 ∧ s'.t6 = s.t6
+
+theorem SameCore.net {a b : Sock} (h : SameCore a b) : SameNet a b := ⟨h.1, h.2.1, h.2.2.1, h.2.2.2.2.1, h.2.2.2.2.2⟩
+theorem SameNet.refl (s : Sock) : SameNet s s := ⟨rfl, rfl, rfl, rfl, rfl⟩
+theorem SameNet.trans {a b c : Sock} (h1 : SameNet a b) (h2 : SameNet b c) : SameNet a c := by
+  obtain ⟨a1, a2, a3, a4, a5⟩ := h1
+  obtain ⟨b1, b2, b3, b4, b5⟩ := h2
+  exact ⟨b1.trans a1, b2.trans a2, b3.trans a3, b4.trans a4, b5.trans a5⟩
+theorem SameNet.symm {a b : Sock} (h : SameNet a b) : SameNet b a := by
+  obtain ⟨a1, a2, a3, a4, a5⟩ := h
+  exact ⟨a1.symm, a2.symm, a3.symm, a4.symm, a5.symm⟩
 
 /-- an output of `sendto`: a started resolution, or an emission that passed the gate and the null check through an
     open transport -/
@@ -172,46 +203,166 @@ def SendOut (fl : List Nat) (pfx : Bytes) (s : Sock) (o : Out) : Prop :=
   (∃ v data dest, o = .emit s.cid v data dest ∧ gate fl pfx data = true ∧ dest.isNull = false ∧
       (s.t4 = true ∨ s.t6 = true))
 
-theorem sendto_core (fl : List Nat) (pfx : Bytes) (s : Sock) (data : Bytes) (dest : Dest) :
-    SameCore s (sendto fl pfx s data dest).1 := by
-  unfold sendto
-  by_cases hg : gate fl pfx data <;> by_cases hd : dest.kind = .dom <;> by_cases hn : dest.isNull
-    <;> by_cases ho : (if dest.kind = .v6 then s.t6 else s.t4) <;> simp [hg, hd, hn, ho, SameCore]
+/-- what one event may make an exit socket output -/
+def SockOut (fl : List Nat) (pfx : Bytes) (s : Sock) (o : Out) : Prop :=
+  SendOut fl pfx s o ∨ ∃ payload src, o = .tunnel s.cid s.hopIp s.hopPort payload src ∧ gate fl pfx payload = true
 
-theorem sendto_out (fl : List Nat) (pfx : Bytes) (s : Sock) (data : Bytes) (dest : Dest) :
-    ∀ o ∈ (sendto fl pfx s data dest).2, SendOut fl pfx s o := by
-  intro o hmem
-  unfold sendto at hmem
-  split at hmem
-  · simp at hmem
-  · rename_i hg
-    split at hmem
-    · simp at hmem; exact Or.inl ⟨_, _, hmem⟩
-    · split at hmem
-      · simp at hmem
-      · rename_i hn
-        by_cases h6 : dest.kind = .v6
-        · by_cases ht : s.t6 = true
-          · simp [h6, ht] at hmem
-            subst hmem
-            exact Or.inr ⟨_, _, _, rfl, by simpa using hg, by simpa using hn, Or.inr ht⟩
-          · simp [h6, ht] at hmem
-        · by_cases ht : s.t4 = true
-          · simp [h6, ht] at hmem
-            subst hmem
-            exact Or.inr ⟨_, _, _, rfl, by simpa using hg, by simpa using hn, Or.inl ht⟩
-          · simp [h6, ht] at hmem
-
-theorem SendOut.of_core {fl : List Nat} {pfx : Bytes} {s s' : Sock} {o : Out} (hc : SameCore s s')
+theorem SendOut.of_net {fl : List Nat} {pfx : Bytes} {s s' : Sock} {o : Out} (hc : SameNet s s')
     (h : SendOut fl pfx s o) : SendOut fl pfx s' o := by
-  obtain ⟨c1, _, _, _, c5, c6⟩ := hc
+  obtain ⟨c1, _, _, c5, c6⟩ := hc
   rcases h with ⟨h, p, rfl⟩ | ⟨v, data, dest, rfl, hg, hn, ht⟩
   · exact Or.inl ⟨h, p, by rw [c1]⟩
   · exact Or.inr ⟨v, data, dest, by rw [c1], hg, hn, by rw [c5, c6]; exact ht⟩
 
-theorem SameCore.symm {a b : Sock} (h : SameCore a b) : SameCore b a := by
-  obtain ⟨a1, a2, a3, a4, a5, a6⟩ := h
-  exact ⟨a1.symm, a2.symm, a3.symm, a4.symm, a5.symm, a6.symm⟩
+theorem SendOut.of_core {fl : List Nat} {pfx : Bytes} {s s' : Sock} {o : Out} (hc : SameCore s s')
+    (h : SendOut fl pfx s o) : SendOut fl pfx s' o := h.of_net hc.net
+
+theorem SockOut.of_net {fl : List Nat} {pfx : Bytes} {s s' : Sock} {o : Out} (hc : SameNet s s')
+    (h : SockOut fl pfx s o) : SockOut fl pfx s' o := by
+  rcases h with h | ⟨payload, src, rfl, hg⟩
+  · exact Or.inl (h.of_net hc)
+  · obtain ⟨c1, c2, c3, _, _⟩ := hc
+    exact Or.inr ⟨payload, src, by rw [c1, c2, c3], hg⟩
+
+theorem pushBounded_len (q : List (Bytes × Dest)) (x : Bytes × Dest) : (pushBounded q x).length ≤ Gen.QUEUE_MAXLEN := by
+  simp [pushBounded]; omega
+
+/-! ### level 1: ANY socket-level program that passes `safeSock` (sendto, datagram_received) -/
+
+/-- syntactic safety of a socket-level program.  `al`/`nn`/`tr`: on the current path it is already known that the
+    packet is allowed / the address is not null / the chosen transport exists.  A `transportSend` needs all three,
+    a `tunnelData` needs `al`; a test of the corresponding atom establishes the fact in the branch where it holds. -/
+def safeSock (al nn tr : Bool) : Prog → Bool
+  | .done => true
+  | .act a k => (a != .transportSend || (al && nn && tr)) && (a != .tunnelData || al) && safeSock al nn tr k
+  | .ite c t e =>
+    safeSock (al || c == .allowed) nn (tr || c == .hasTransport) t && safeSock al (nn || c == .destIsNull) tr e
+
+theorem actSock_core (e : Env) (s : Sock) (a : Act) : SameCore s (actSock e s a).1 := by
+  cases a <;> exact ⟨rfl, rfl, rfl, rfl, rfl, rfl⟩
+
+theorem actSock_queue (e : Env) (s : Sock) (a : Act) (h : s.queue.length ≤ Gen.QUEUE_MAXLEN) :
+    (actSock e s a).1.queue.length ≤ Gen.QUEUE_MAXLEN := by
+  cases a <;> first | exact h | exact pushBounded_len _ _
+
+theorem interpSock_core (e : Env) : ∀ (p : Prog) (s : Sock), SameCore s (interpSock e p s).1
+  | .done, s => SameCore.refl s
+  | .act a k, s => by
+    simp only [interpSock]
+    exact (actSock_core e s a).trans (interpSock_core e k _)
+  | .ite c t el, s => by
+    simp only [interpSock]
+    split
+    · exact interpSock_core e t s
+    · exact interpSock_core e el s
+
+theorem interpSock_queue (e : Env) : ∀ (p : Prog) (s : Sock), s.queue.length ≤ Gen.QUEUE_MAXLEN →
+    (interpSock e p s).1.queue.length ≤ Gen.QUEUE_MAXLEN
+  | .done, _, h => h
+  | .act a k, s, h => by
+    simp only [interpSock]
+    exact interpSock_queue e k _ (actSock_queue e s a h)
+  | .ite c t el, s, h => by
+    simp only [interpSock]
+    split
+    · exact interpSock_queue e t s h
+    · exact interpSock_queue e el s h
+
+/-- soundness of `safeSock`, for every program, socket state, packet and address -/
+theorem interpSock_out (e : Env) : ∀ (p : Prog) (s : Sock) (al nn tr : Bool),
+    (al = true → gate e.fl e.pfx e.data = true) → (nn = true → e.dest.isNull = false) →
+    (tr = true → (s.t4 = true ∨ s.t6 = true)) → safeSock al nn tr p = true →
+    ∀ o ∈ (interpSock e p s).2, SockOut e.fl e.pfx s o
+  | .done, s, _, _, _, _, _, _, _ => by intro o h; simp [interpSock] at h
+  | .act a k, s, al, nn, tr, hal, hnn, htr, hs => by
+    intro o hmem
+    simp only [safeSock, Bool.and_eq_true, Bool.or_eq_true] at hs
+    obtain ⟨⟨h1, h2⟩, h3⟩ := hs
+    simp only [interpSock, List.mem_append] at hmem
+    rcases hmem with hmem | hmem
+    · cases a with
+      | transportSend =>
+        simp [actSock] at hmem
+        have hh : (al = true ∧ nn = true) ∧ tr = true := by simpa using h1
+        subst hmem
+        exact Or.inl (Or.inr ⟨_, _, _, rfl, hal hh.1.1, hnn hh.1.2, htr hh.2⟩)
+      | tunnelData =>
+        simp [actSock] at hmem
+        have hh : al = true := by simpa using h2
+        subst hmem
+        exact Or.inr ⟨_, _, rfl, hal hh⟩
+      | startResolve =>
+        simp [actSock] at hmem
+        subst hmem
+        exact Or.inl (Or.inl ⟨_, _, rfl⟩)
+      | queueAppend => simp [actSock] at hmem
+      | enable => simp [actSock] at hmem
+      | sendto => simp [actSock] at hmem
+      | exitData => simp [actSock] at hmem
+      | localDeliver => simp [actSock] at hmem
+    · have hc := actSock_core e s a
+      have := interpSock_out e k (actSock e s a).1 al nn tr hal hnn
+        (fun h => by rw [hc.2.2.2.2.1, hc.2.2.2.2.2]; exact htr h) h3 o hmem
+      exact this.of_net hc.net.symm
+  | .ite c t el, s, al, nn, tr, hal, hnn, htr, hs => by
+    intro o hmem
+    simp only [safeSock, Bool.and_eq_true] at hs
+    simp only [interpSock] at hmem
+    by_cases hc : condSock e s c = true
+    · simp only [hc, if_true] at hmem
+      refine interpSock_out e t s _ nn _ ?_ hnn ?_ hs.1 o hmem
+      · intro h
+        rcases (Bool.or_eq_true _ _).mp h with h | h
+        · exact hal h
+        · have : c = .allowed := by simpa using h
+          subst this; simpa [condSock] using hc
+      · intro h
+        rcases (Bool.or_eq_true _ _).mp h with h | h
+        · exact htr h
+        · have : c = .hasTransport := by simpa using h
+          subst this
+          simp only [condSock] at hc
+          by_cases h6 : e.dest.kind = .v6
+          · simp [h6] at hc; exact Or.inr hc
+          · simp [h6] at hc; exact Or.inl hc
+    · simp only [hc] at hmem
+      refine interpSock_out e el s al _ tr hal ?_ htr hs.2 o hmem
+      intro h
+      rcases (Bool.or_eq_true _ _).mp h with h | h
+      · exact hnn h
+      · have : c = .destIsNull := by simpa using h
+        subst this
+        simpa [condSock] using hc
+
+/-- the generated programs pass the check (re-decided against the source on every run) -/
+theorem sendto_prog_safe' : safeSock false false false Gen.sendto_prog = true := by decide
+theorem datagram_received_prog_safe' : safeSock false false false Gen.datagram_received_prog = true := by decide
+
+theorem sendto_core (fl : List Nat) (pfx : Bytes) (s : Sock) (data : Bytes) (dest : Dest) :
+    SameCore s (sendto fl pfx s data dest).1 := interpSock_core _ _ _
+
+theorem sendto_out (fl : List Nat) (pfx : Bytes) (s : Sock) (data : Bytes) (dest : Dest) :
+    ∀ o ∈ (sendto fl pfx s data dest).2, SockOut fl pfx s o :=
+  interpSock_out ⟨fl, pfx, data, dest⟩ Gen.sendto_prog s false false false (by simp) (by simp) (by simp) sendto_prog_safe'
+
+theorem recv_core (fl : List Nat) (pfx : Bytes) (s : Sock) (data : Bytes) (src : Dest) :
+    SameCore s (recvOutside fl pfx s data src).1 := interpSock_core _ _ _
+
+theorem recv_out (fl : List Nat) (pfx : Bytes) (s : Sock) (data : Bytes) (src : Dest) :
+    ∀ o ∈ (recvOutside fl pfx s data src).2, SockOut fl pfx s o :=
+  interpSock_out ⟨fl, pfx, data, src⟩ Gen.datagram_received_prog s false false false (by simp) (by simp) (by simp)
+    datagram_received_prog_safe'
+
+theorem recv_queue (fl : List Nat) (pfx : Bytes) (s : Sock) (data : Bytes) (src : Dest)
+    (h : s.queue.length ≤ Gen.QUEUE_MAXLEN) : (recvOutside fl pfx s data src).1.queue.length ≤ Gen.QUEUE_MAXLEN :=
+  interpSock_queue _ _ _ h
+
+theorem sendto_queue (fl : List Nat) (pfx : Bytes) (s : Sock) (data : Bytes) (dest : Dest)
+    (h : s.queue.length ≤ Gen.QUEUE_MAXLEN) : (sendto fl pfx s data dest).1.queue.length ≤ Gen.QUEUE_MAXLEN :=
+  interpSock_queue _ _ _ h
+
+
+/-! ### the flush loop and the other socket events -/
 
 theorem flush_core (fl : List Nat) (pfx : Bytes) : ∀ (q : List (Bytes × Dest)) (s : Sock),
     SameCore s (flush fl pfx s q).1
@@ -221,35 +372,28 @@ theorem flush_core (fl : List Nat) (pfx : Bytes) : ∀ (q : List (Bytes × Dest)
     exact (sendto_core fl pfx s d dst).trans (flush_core fl pfx rest _)
 
 theorem flush_out (fl : List Nat) (pfx : Bytes) : ∀ (q : List (Bytes × Dest)) (s : Sock),
-    ∀ o ∈ (flush fl pfx s q).2, SendOut fl pfx s o
+    ∀ o ∈ (flush fl pfx s q).2, SockOut fl pfx s o
   | [], s => by simp [flush]
   | (d, dst) :: rest, s => by
     intro o hmem
     simp only [flush, List.mem_append] at hmem
     rcases hmem with h | h
     · exact sendto_out fl pfx s d dst o h
-    · exact (flush_out fl pfx rest _ o h).of_core (sendto_core fl pfx s d dst).symm
+    · exact (flush_out fl pfx rest _ o h).of_net (sendto_core fl pfx s d dst).net.symm
 
-/-- what one event may make an exit socket output -/
-def SockOut (fl : List Nat) (pfx : Bytes) (s : Sock) (o : Out) : Prop :=
-  SendOut fl pfx s o ∨ ∃ payload src, o = .tunnel s.cid s.hopIp s.hopPort payload src ∧ gate fl pfx payload = true
+theorem flush_queue (fl : List Nat) (pfx : Bytes) : ∀ (q : List (Bytes × Dest)) (s : Sock),
+    s.queue.length ≤ Gen.QUEUE_MAXLEN → (flush fl pfx s q).1.queue.length ≤ Gen.QUEUE_MAXLEN
+  | [], s, h => h
+  | (d, dst) :: rest, s, h => by
+    simp only [flush]
+    exact flush_queue fl pfx rest _ (sendto_queue fl pfx s d dst h)
 
 theorem sockStep_out (fl : List Nat) (pfx : Bytes) (s : Sock) (ev : Ev) :
     ∀ o ∈ (sockStep fl pfx s ev).2, SockOut fl pfx (sockStep fl pfx s ev).1 o := by
   intro o hmem
   cases ev with
   | setFlags f => simp [sockStep] at hmem
-  | data ip sp c d p =>
-    simp only [sockStep] at hmem ⊢
-    split at hmem
-    · split at hmem
-      · rename_i h1 h2
-        simp only [h1, h2, if_true]
-        exact Or.inl ((sendto_out _ _ _ _ _ o hmem).of_core (sendto_core _ _ _ _ _))
-      · simp at hmem
-    · rename_i h1
-      simp only [h1]
-      exact Or.inl ((sendto_out _ _ _ _ _ o hmem).of_core (sendto_core _ _ _ _ _))
+  | data ip sp c d p => simp [sockStep] at hmem
   | open4 c =>
     simp only [sockStep] at hmem
     split at hmem <;> simp at hmem
@@ -258,27 +402,22 @@ theorem sockStep_out (fl : List Nat) (pfx : Bytes) (s : Sock) (ev : Ev) :
     split at hmem
     · rename_i h1
       simp only [h1, if_true]
-      exact Or.inl ((flush_out _ _ _ _ o hmem).of_core (flush_core _ _ _ _))
+      exact (flush_out _ _ _ _ o hmem).of_net (flush_core _ _ _ _).net
     · simp at hmem
   | resolved c idx infos =>
     simp only [sockStep] at hmem ⊢
     split at hmem
     · simp at hmem
-    · rename_i data dest h1
-      split at hmem
+    · split at hmem
       · simp at hmem
-      · rename_i a h2
-        exact Or.inl ((sendto_out _ _ _ _ _ o hmem).of_core (sendto_core _ _ _ _ _))
+      · exact (sendto_out _ _ _ _ _ o hmem).of_net (sendto_core _ _ _ _ _).net
   | outside c v6 host port payload =>
     simp only [sockStep] at hmem ⊢
     split at hmem
     · simp at hmem
-    · split at hmem
-      · rename_i h1 h2
-        simp only [h1, h2, if_true]
-        simp at hmem
-        exact Or.inr ⟨_, _, hmem, h2⟩
-      · simp at hmem
+    · rename_i h1
+      simp only [h1]
+      exact (recv_out _ _ _ _ _ o hmem).of_net (recv_core _ _ _ _ _).net
 
 /-! ### which socket opened, and why -/
 
@@ -294,8 +433,8 @@ theorem Opened.mono {P : List Ev} {s : Sock} (e : Ev) (h : Opened P s) : Opened 
   obtain ⟨sp, d, p, hm, hn⟩ := h
   exact ⟨sp, d, p, List.mem_cons_of_mem _ hm, hn⟩
 
-theorem Opened.of_core {P : List Ev} {s s' : Sock} (hc : SameCore s s') (h : Opened P s) : Opened P s' := by
-  obtain ⟨c1, c2, _, _, _, _⟩ := hc
+theorem Opened.of_net {P : List Ev} {s s' : Sock} (hc : SameNet s s') (h : Opened P s) : Opened P s' := by
+  obtain ⟨c1, c2, _, _, _⟩ := hc
   obtain ⟨sp, d, p, hm, hn⟩ := h
   exact ⟨sp, d, p, by rw [c1, c2]; exact hm, hn⟩
 
@@ -303,32 +442,18 @@ theorem sockInv.mono {P : List Ev} {s : Sock} (e : Ev) (h : sockInv P s) : sockI
   ⟨h.1, h.2.1, fun he => (h.2.2 he).mono e⟩
 
 theorem sockInv.of_core {P : List Ev} {s s' : Sock} (hc : SameCore s s') (h : sockInv P s) : sockInv P s' := by
-  have hc' := hc
+  have hn := hc.net
   obtain ⟨_, _, _, c4, c5, c6⟩ := hc
   refine ⟨?_, ?_, ?_⟩
   · rw [c5, c6]; exact h.1
   · rw [c4, c5]; exact h.2.1
-  · rw [c4]; exact fun he => (h.2.2 he).of_core hc'
+  · rw [c4]; exact fun he => (h.2.2 he).of_net hn
 
-theorem sockStep_inv (fl : List Nat) (pfx : Bytes) (P : List Ev) (s : Sock) (ev : Ev) (hinv : sockInv P s)
-    (hdata : ∀ ip sp c d p, ev = .data ip sp c d p → c = s.cid ∧ d.isNull = false) :
+theorem sockStep_inv (fl : List Nat) (pfx : Bytes) (P : List Ev) (s : Sock) (ev : Ev) (hinv : sockInv P s) :
     sockInv (ev :: P) (sockStep fl pfx s ev).1 := by
   cases ev with
   | setFlags f => exact hinv.mono _
-  | data ip sp c d p =>
-    obtain ⟨hc, hd⟩ := hdata ip sp c d p rfl
-    simp only [sockStep]
-    split
-    · rename_i hen
-      split
-      · rename_i hip
-        have hip' : ip = s.hopIp := by simpa using hip
-        refine sockInv.of_core (sendto_core _ _ _ _ _) ⟨?_, ?_, ?_⟩
-        · exact hinv.1
-        · intro _; rfl
-        · intro _; exact ⟨sp, d, p, by subst hip' hc; exact List.mem_cons_self, hd⟩
-      · exact hinv.mono _
-    · exact (hinv.mono _).of_core (sendto_core _ _ _ _ _)
+  | data ip sp c d p => exact hinv.mono _
   | open4 c =>
     simp only [sockStep]
     split
@@ -354,19 +479,13 @@ theorem sockStep_inv (fl : List Nat) (pfx : Bytes) (P : List Ev) (s : Sock) (ev 
     simp only [sockStep]
     split
     · exact hinv.mono _
-    · split <;> exact hinv.mono _
+    · exact (hinv.mono _).of_core (recv_core _ _ _ _ _)
 
 theorem sockStep_ids (fl : List Nat) (pfx : Bytes) (s : Sock) (ev : Ev) :
     (sockStep fl pfx s ev).1.cid = s.cid ∧ (sockStep fl pfx s ev).1.hopIp = s.hopIp := by
   cases ev with
   | setFlags f => exact ⟨rfl, rfl⟩
-  | data ip sp c d p =>
-    simp only [sockStep]
-    split
-    · split
-      · exact ⟨(sendto_core _ _ _ _ _).1, (sendto_core _ _ _ _ _).2.1⟩
-      · exact ⟨rfl, rfl⟩
-    · exact ⟨(sendto_core _ _ _ _ _).1, (sendto_core _ _ _ _ _).2.1⟩
+  | data ip sp c d p => exact ⟨rfl, rfl⟩
   | open4 c => simp only [sockStep]; split <;> exact ⟨rfl, rfl⟩
   | open6 c =>
     simp only [sockStep]
@@ -384,7 +503,31 @@ theorem sockStep_ids (fl : List Nat) (pfx : Bytes) (s : Sock) (ev : Ev) :
     simp only [sockStep]
     split
     · exact ⟨rfl, rfl⟩
-    · split <;> exact ⟨rfl, rfl⟩
+    · exact ⟨(recv_core _ _ _ _ _).1, (recv_core _ _ _ _ _).2.1⟩
+
+theorem sockStep_queue (fl : List Nat) (pfx : Bytes) (s : Sock) (ev : Ev) (h : s.queue.length ≤ Gen.QUEUE_MAXLEN) :
+    (sockStep fl pfx s ev).1.queue.length ≤ Gen.QUEUE_MAXLEN := by
+  cases ev with
+  | setFlags f => exact h
+  | data ip sp c d p => exact h
+  | open4 c => simp only [sockStep]; split <;> exact h
+  | open6 c =>
+    simp only [sockStep]
+    split
+    · exact flush_queue _ _ _ _ (by simp)
+    · exact h
+  | resolved c idx infos =>
+    simp only [sockStep]
+    split
+    · exact h
+    · split
+      · exact h
+      · exact sendto_queue _ _ _ _ _ h
+  | outside c v6 host port payload =>
+    simp only [sockStep]
+    split
+    · exact h
+    · exact recv_queue _ _ _ _ _ h
 
 theorem mem_setSock {l : List Sock} {r x : Sock} (h : x ∈ setSock l r) : x ∈ l ∨ x = r := by
   induction l with
@@ -424,120 +567,357 @@ theorem find_cid {l : List Sock} {cid : Nat} {s : Sock} (h : l.find? (fun s => s
 def Inv (base : List (Nat × Bytes)) (P : List Ev) (st : St) : Prop :=
   ∀ s ∈ st.socks, (s.cid, s.hopIp) ∈ base ∧ sockInv P s
 
-theorem viaSock_out (st : St) (cid : Nat) (ev : Ev) :
-    ∀ o ∈ (viaSock st cid ev).2, ∃ s' ∈ (viaSock st cid ev).1.socks, SockOut st.flags st.pfx s' o := by
-  intro o hmem
-  unfold viaSock at hmem ⊢
-  split at hmem
-  · simp at hmem
-  · rename_i s hf
-    obtain ⟨hs, hc⟩ := find_cid hf
-    simp only at hmem ⊢
-    refine ⟨(sockStep st.flags st.pfx s ev).1, ?_, sockStep_out _ _ _ _ o hmem⟩
-    exact mem_setSock_self ⟨s, hs, (sockStep_ids _ _ _ _).1.symm⟩
+theorem Inv.mono {base : List (Nat × Bytes)} {P : List Ev} {st : St} (e : Ev) (h : Inv base P st) : Inv base (e :: P) st :=
+  fun s hs => ⟨(h s hs).1, (h s hs).2.mono e⟩
+
+/-- an output that is a local delivery or satisfies the socket-level output predicate for some socket -/
+def WeakOut (fl : List Nat) (pfx : Bytes) (o : Out) : Prop :=
+  (∃ c k, o = .loc c k) ∨ ∃ s', SockOut fl pfx s' o
+
+/-- … for a socket that belongs to `base` and satisfies the opening invariant over the history `Q` -/
+def StrongOut (base : List (Nat × Bytes)) (Q : List Ev) (fl : List Nat) (pfx : Bytes) (o : Out) : Prop :=
+  (∃ c k, o = .loc c k) ∨ ∃ s', (s'.cid, s'.hopIp) ∈ base ∧ sockInv Q s' ∧ SockOut fl pfx s' o
 
 theorem viaSock_flags (st : St) (cid : Nat) (ev : Ev) :
     (viaSock st cid ev).1.flags = st.flags ∧ (viaSock st cid ev).1.pfx = st.pfx := by
   unfold viaSock; split <;> exact ⟨rfl, rfl⟩
 
-theorem viaSock_inv (base : List (Nat × Bytes)) (P : List Ev) (st : St) (cid : Nat) (ev : Ev) (hinv : Inv base P st)
-    (hdata : ∀ ip sp c d p, ev = .data ip sp c d p → c = cid ∧ d.isNull = false) :
-    Inv base (ev :: P) (viaSock st cid ev).1 := by
+theorem viaSock_weak (st : St) (cid : Nat) (ev : Ev) : ∀ o ∈ (viaSock st cid ev).2, WeakOut st.flags st.pfx o := by
+  intro o hmem
+  unfold viaSock at hmem
+  split at hmem
+  · simp at hmem
+  · exact Or.inr ⟨_, sockStep_out _ _ _ _ o hmem⟩
+
+theorem viaSock_inv (base : List (Nat × Bytes)) (P : List Ev) (st : St) (cid : Nat) (ev : Ev) (hinv : Inv base P st) :
+    Inv base (ev :: P) (viaSock st cid ev).1 ∧ ∀ o ∈ (viaSock st cid ev).2, StrongOut base (ev :: P) st.flags st.pfx o := by
   unfold viaSock
   split
-  · exact fun s hs => ⟨(hinv s hs).1, (hinv s hs).2.mono _⟩
+  · exact ⟨hinv.mono _, by simp⟩
   · rename_i s hf
     obtain ⟨hs, hc⟩ := find_cid hf
+    obtain ⟨i1, i2⟩ := sockStep_ids st.flags st.pfx s ev
+    have hnew : ((sockStep st.flags st.pfx s ev).1.cid, (sockStep st.flags st.pfx s ev).1.hopIp) ∈ base
+        ∧ sockInv (ev :: P) (sockStep st.flags st.pfx s ev).1 :=
+      ⟨by rw [i1, i2]; exact (hinv s hs).1, sockStep_inv _ _ _ _ _ (hinv s hs).2⟩
+    refine ⟨?_, ?_⟩
+    · intro x hx
+      rcases mem_setSock hx with hx | hx
+      · exact (hinv.mono _) x hx
+      · subst hx; exact hnew
+    · intro o hmem
+      exact Or.inr ⟨_, hnew.1, hnew.2, sockStep_out _ _ _ _ o hmem⟩
+
+theorem viaSock_queue (st : St) (cid : Nat) (ev : Ev) (h : ∀ s ∈ st.socks, s.queue.length ≤ Gen.QUEUE_MAXLEN) :
+    ∀ s ∈ (viaSock st cid ev).1.socks, s.queue.length ≤ Gen.QUEUE_MAXLEN := by
+  unfold viaSock
+  split
+  · exact h
+  · rename_i s hf
     intro x hx
     rcases mem_setSock hx with hx | hx
-    · exact ⟨(hinv x hx).1, (hinv x hx).2.mono _⟩
-    · subst hx
-      obtain ⟨i1, i2⟩ := sockStep_ids st.flags st.pfx s ev
-      refine ⟨by rw [i1, i2]; exact (hinv s hs).1, sockStep_inv _ _ _ _ _ (hinv s hs).2 ?_⟩
-      intro ip sp c d p he
-      obtain ⟨h1, h2⟩ := hdata ip sp c d p he
-      exact ⟨h1.trans hc.symm, h2⟩
+    · exact h x hx
+    · subst hx; exact sockStep_queue _ _ _ _ (h s (find_cid hf).1)
 
-/-- an output of one community step: a local delivery, or something an exit socket of the resulting state produced -/
-def StepOut (st' : St) (fl : List Nat) (pfx : Bytes) (o : Out) : Prop :=
-  (∃ c k, o = .loc c k) ∨ ∃ s' ∈ st'.socks, SockOut fl pfx s' o
+/-! ### level 2: ANY `exit_data` program that passes `safeExit` -/
 
-theorem step_out (st : St) (ev : Ev) : ∀ o ∈ (step st ev).2, StepOut (step st ev).1 st.flags st.pfx o := by
-  intro o hmem
+/-- `hop`: on the current path it is known that the cell's source IP equals the socket's hop IP.
+    An `enable` needs it; the test `srcIpIsHopIp` establishes it in its true-branch. -/
+def safeExit (hop : Bool) : Prog → Bool
+  | .done => true
+  | .act a k => (a != .enable || hop) && safeExit hop k
+  | .ite c t e => safeExit (hop || c == .srcIpIsHopIp) t && safeExit hop e
+
+theorem interpExit_none (e : XEnv) : ∀ p : Prog, interpExit e p none = (none, [])
+  | .done => rfl
+  | .act _ _ => rfl
+  | .ite c t el => by
+    simp only [interpExit]
+    split
+    · exact interpExit_none e t
+    · exact interpExit_none e el
+
+/-- what running an exit_data program on a registered socket can do -/
+structure ExitSpec (e : XEnv) (x x' : Sock) (outs : List Out) : Prop where
+  net : SameNet x x'
+  keep : x.enabled = true → x'.enabled = true
+  why : x'.enabled = true → x.enabled = true ∨ (e.srcIp == x.hopIp) = true
+  queue : x.queue.length ≤ Gen.QUEUE_MAXLEN → x'.queue.length ≤ Gen.QUEUE_MAXLEN
+  outs : ∀ o ∈ outs, SockOut e.fl e.pfx x' o
+
+theorem actExit_spec (e : XEnv) (x : Sock) (a : Act) (hop : Bool) (hh : hop = true → (e.srcIp == x.hopIp) = true)
+    (ha : (a != .enable || hop) = true) : ExitSpec e x (actExit e x a).1 (actExit e x a).2 := by
+  cases a with
+  | enable =>
+    have hop' : hop = true := by simpa using ha
+    exact ⟨⟨rfl, rfl, rfl, rfl, rfl⟩, fun _ => rfl, fun _ => Or.inr (hh hop'), fun h => h, by simp [actExit]⟩
+  | sendto =>
+    have hc := sendto_core e.fl e.pfx x e.data e.dest
+    refine ⟨hc.net, fun h => by rw [show (actExit e x .sendto).1.enabled = x.enabled from hc.2.2.2.1]; exact h,
+      fun h => Or.inl (by rw [← show (actExit e x .sendto).1.enabled = x.enabled from hc.2.2.2.1]; exact h),
+      fun h => sendto_queue _ _ _ _ _ h, ?_⟩
+    intro o ho
+    exact (sendto_out e.fl e.pfx x e.data e.dest o ho).of_net hc.net
+  | queueAppend => exact ⟨SameNet.refl x, id, Or.inl, id, by simp [actExit]⟩
+  | transportSend => exact ⟨SameNet.refl x, id, Or.inl, id, by simp [actExit]⟩
+  | startResolve => exact ⟨SameNet.refl x, id, Or.inl, id, by simp [actExit]⟩
+  | tunnelData => exact ⟨SameNet.refl x, id, Or.inl, id, by simp [actExit]⟩
+  | exitData => exact ⟨SameNet.refl x, id, Or.inl, id, by simp [actExit]⟩
+  | localDeliver => exact ⟨SameNet.refl x, id, Or.inl, id, by simp [actExit]⟩
+
+/-- soundness of `safeExit`, for every program and socket -/
+theorem interpExit_some (e : XEnv) : ∀ (p : Prog) (x : Sock) (hop : Bool),
+    (hop = true → (e.srcIp == x.hopIp) = true) → safeExit hop p = true →
+    ∃ x', (interpExit e p (some x)).1 = some x' ∧ ExitSpec e x x' (interpExit e p (some x)).2
+  | .done, x, _, _, _ => ⟨x, rfl, SameNet.refl x, id, Or.inl, id, by simp [interpExit]⟩
+  | .act a k, x, hop, hh, hs => by
+    simp only [safeExit, Bool.and_eq_true] at hs
+    have h1 := actExit_spec e x a hop hh hs.1
+    obtain ⟨x', hx', h2⟩ := interpExit_some e k (actExit e x a).1 hop
+      (fun h => by rw [h1.net.2.1]; exact hh h) hs.2
+    refine ⟨x', by simp only [interpExit]; exact hx', ?_⟩
+    refine ⟨h1.net.trans h2.net, fun h => h2.keep (h1.keep h), ?_, fun h => h2.queue (h1.queue h), ?_⟩
+    · intro h
+      rcases h2.why h with h | h
+      · exact h1.why h
+      · exact Or.inr (by rw [← h1.net.2.1]; exact h)
+    · intro o ho
+      simp only [interpExit, List.mem_append] at ho
+      rcases ho with ho | ho
+      · exact (h1.outs o ho).of_net h2.net
+      · exact h2.outs o ho
+  | .ite c t el, x, hop, hh, hs => by
+    simp only [safeExit, Bool.and_eq_true] at hs
+    by_cases hc : condExit e (some x) c = true
+    · have := interpExit_some e t x (hop || c == .srcIpIsHopIp) (by
+        intro h
+        rcases (Bool.or_eq_true _ _).mp h with h | h
+        · exact hh h
+        · have : c = .srcIpIsHopIp := by simpa using h
+          subst this; simpa [condExit] using hc) hs.1
+      simpa only [interpExit, hc, if_true] using this
+    · have := interpExit_some e el x hop hh hs.2
+      have hc' : condExit e (some x) c = false := by simpa using hc
+      simpa only [interpExit, hc', Bool.false_eq_true, if_false] using this
+
+theorem exit_data_prog_safe' : safeExit false Gen.exit_data_prog = true := by decide
+
+theorem exitData_flags (st : St) (srcIp : Bytes) (cid : Nat) (dest : Dest) (payload : Bytes) :
+    (exitData st srcIp cid dest payload).1.flags = st.flags ∧ (exitData st srcIp cid dest payload).1.pfx = st.pfx ∧
+    (exitData st srcIp cid dest payload).1.circs = st.circs ∧ (exitData st srcIp cid dest payload).1.tunnelEp = st.tunnelEp := by
+  unfold exitData; simp only; split <;> exact ⟨rfl, rfl, rfl, rfl⟩
+
+/-- everything the later proofs need about one `exit_data` call -/
+theorem exitData_spec (st : St) (srcIp : Bytes) (cid : Nat) (dest : Dest) (payload : Bytes) :
+    (∀ o ∈ (exitData st srcIp cid dest payload).2, WeakOut st.flags st.pfx o) ∧
+    ((∀ s ∈ st.socks, s.queue.length ≤ Gen.QUEUE_MAXLEN) →
+      ∀ s ∈ (exitData st srcIp cid dest payload).1.socks, s.queue.length ≤ Gen.QUEUE_MAXLEN) ∧
+    (∀ base Q sp, Ev.data srcIp sp cid dest payload ∈ Q → dest.isNull = false → Inv base Q st →
+      Inv base Q (exitData st srcIp cid dest payload).1 ∧
+      ∀ o ∈ (exitData st srcIp cid dest payload).2, StrongOut base Q st.flags st.pfx o) := by
+  unfold exitData
+  cases hf : st.socks.find? (fun s => s.cid == cid) with
+  | none =>
+    simp only [interpExit_none]
+    exact ⟨by simp, fun h => h, fun _ _ _ _ _ hinv => ⟨hinv, by simp⟩⟩
+  | some x =>
+    obtain ⟨hx, hc⟩ := find_cid hf
+    obtain ⟨x', hx', sp⟩ := interpExit_some ⟨st.flags, st.pfx, srcIp, payload, dest⟩ Gen.exit_data_prog x false
+      (by simp) exit_data_prog_safe'
+    simp only [hx']
+    refine ⟨fun o ho => Or.inr ⟨x', sp.outs o ho⟩, ?_, ?_⟩
+    · intro h s hs
+      rcases mem_setSock hs with hs | hs
+      · exact h s hs
+      · subst hs; exact sp.queue (h x hx)
+    · intro base Q sp' hev hn hinv
+      have hi := hinv x hx
+      have hnew : (x'.cid, x'.hopIp) ∈ base ∧ sockInv Q x' := by
+        refine ⟨by rw [sp.net.1, sp.net.2.1]; exact hi.1, ?_, ?_, ?_⟩
+        · rw [sp.net.2.2.2.1, sp.net.2.2.2.2]; exact hi.2.1
+        · rw [sp.net.2.2.2.1]; exact fun h => sp.keep (hi.2.2.1 h)
+        · intro h
+          rcases sp.why h with h | h
+          · exact (hi.2.2.2 h).of_net sp.net
+          · have hip : srcIp = x.hopIp := by simpa using h
+            refine ⟨sp', dest, payload, ?_, hn⟩
+            rw [sp.net.1, sp.net.2.1, hc, ← hip]; exact hev
+      refine ⟨?_, fun o ho => Or.inr ⟨x', hnew.1, hnew.2, sp.outs o ho⟩⟩
+      intro s hs
+      rcases mem_setSock hs with hs | hs
+      · exact hinv s hs
+      · subst hs; exact hnew
+
+/-! ### level 3: ANY `on_data` dispatch program that passes `safeOnData` -/
+
+/-- `nn`: on the current path the destination is known not to be ("0.0.0.0", 0); `exitData` needs it -/
+def safeOnData (nn : Bool) : Prog → Bool
+  | .done => true
+  | .act a k => (a != .exitData || nn) && safeOnData nn k
+  | .ite c t e => safeOnData nn t && safeOnData (nn || c == .destIsNull) e
+
+theorem on_data_prog_safe' : safeOnData false Gen.on_data_prog = true := by decide
+
+theorem localDeliver_loc (e : DEnv) (st : St) : ∀ o ∈ localDeliver e st, ∃ c k, o = Out.loc c k := by
+  intro o ho
+  unfold localDeliver at ho
+  split at ho
+  · simp only at ho
+    split at ho
+    · simp at ho
+    · simp at ho; exact ⟨_, _, ho⟩
+  · simp at ho
+
+theorem actOnData_flags (e : DEnv) (st : St) (a : Act) :
+    (actOnData e st a).1.flags = st.flags ∧ (actOnData e st a).1.pfx = st.pfx := by
+  cases a <;> first | exact ⟨rfl, rfl⟩ | exact ⟨(exitData_flags _ _ _ _ _).1, (exitData_flags _ _ _ _ _).2.1⟩
+
+theorem actOnData_weak (e : DEnv) (st : St) (a : Act) : ∀ o ∈ (actOnData e st a).2, WeakOut st.flags st.pfx o := by
+  cases a with
+  | exitData => exact (exitData_spec _ _ _ _ _).1
+  | localDeliver => exact fun o ho => Or.inl (localDeliver_loc e st o ho)
+  | queueAppend => simp [actOnData]
+  | transportSend => simp [actOnData]
+  | startResolve => simp [actOnData]
+  | tunnelData => simp [actOnData]
+  | enable => simp [actOnData]
+  | sendto => simp [actOnData]
+
+theorem actOnData_queue (e : DEnv) (st : St) (a : Act) (h : ∀ s ∈ st.socks, s.queue.length ≤ Gen.QUEUE_MAXLEN) :
+    ∀ s ∈ (actOnData e st a).1.socks, s.queue.length ≤ Gen.QUEUE_MAXLEN := by
+  cases a <;> first | exact h | exact (exitData_spec _ _ _ _ _).2.1 h
+
+theorem actOnData_inv (e : DEnv) (base : List (Nat × Bytes)) (Q : List Ev) (sp : Nat)
+    (hev : Ev.data e.srcIp sp e.cid e.dest e.payload ∈ Q) (st : St) (a : Act) (nn : Bool)
+    (hnn : nn = true → e.dest.isNull = false) (ha : (a != .exitData || nn) = true) (hinv : Inv base Q st) :
+    Inv base Q (actOnData e st a).1 ∧ ∀ o ∈ (actOnData e st a).2, StrongOut base Q st.flags st.pfx o := by
+  cases a with
+  | exitData =>
+    have : nn = true := by simpa using ha
+    exact (exitData_spec _ _ _ _ _).2.2 base Q sp hev (hnn this) hinv
+  | localDeliver => exact ⟨hinv, fun o ho => Or.inl (localDeliver_loc e st o ho)⟩
+  | queueAppend => exact ⟨hinv, by simp [actOnData]⟩
+  | transportSend => exact ⟨hinv, by simp [actOnData]⟩
+  | startResolve => exact ⟨hinv, by simp [actOnData]⟩
+  | tunnelData => exact ⟨hinv, by simp [actOnData]⟩
+  | enable => exact ⟨hinv, by simp [actOnData]⟩
+  | sendto => exact ⟨hinv, by simp [actOnData]⟩
+
+theorem interpOnData_flags (e : DEnv) : ∀ (p : Prog) (st : St),
+    (interpOnData e p st).1.flags = st.flags ∧ (interpOnData e p st).1.pfx = st.pfx
+  | .done, _ => ⟨rfl, rfl⟩
+  | .act a k, st => by
+    simp only [interpOnData]
+    have h1 := actOnData_flags e st a
+    have h2 := interpOnData_flags e k (actOnData e st a).1
+    exact ⟨h2.1.trans h1.1, h2.2.trans h1.2⟩
+  | .ite c t el, st => by
+    simp only [interpOnData]
+    split
+    · exact interpOnData_flags e t st
+    · exact interpOnData_flags e el st
+
+theorem interpOnData_weak (e : DEnv) : ∀ (p : Prog) (st : St), ∀ o ∈ (interpOnData e p st).2, WeakOut st.flags st.pfx o
+  | .done, _ => by simp [interpOnData]
+  | .act a k, st => by
+    intro o ho
+    simp only [interpOnData, List.mem_append] at ho
+    rcases ho with ho | ho
+    · exact actOnData_weak e st a o ho
+    · have := interpOnData_weak e k (actOnData e st a).1 o ho
+      rwa [(actOnData_flags e st a).1, (actOnData_flags e st a).2] at this
+  | .ite c t el, st => by
+    simp only [interpOnData]
+    split
+    · exact interpOnData_weak e t st
+    · exact interpOnData_weak e el st
+
+theorem interpOnData_queue (e : DEnv) : ∀ (p : Prog) (st : St), (∀ s ∈ st.socks, s.queue.length ≤ Gen.QUEUE_MAXLEN) →
+    ∀ s ∈ (interpOnData e p st).1.socks, s.queue.length ≤ Gen.QUEUE_MAXLEN
+  | .done, _, h => h
+  | .act a k, st, h => by
+    simp only [interpOnData]
+    exact interpOnData_queue e k _ (actOnData_queue e st a h)
+  | .ite c t el, st, h => by
+    simp only [interpOnData]
+    split
+    · exact interpOnData_queue e t st h
+    · exact interpOnData_queue e el st h
+
+/-- soundness of `safeOnData` -/
+theorem interpOnData_inv (e : DEnv) (base : List (Nat × Bytes)) (Q : List Ev) (sp : Nat)
+    (hev : Ev.data e.srcIp sp e.cid e.dest e.payload ∈ Q) : ∀ (p : Prog) (st : St) (nn : Bool),
+    (nn = true → e.dest.isNull = false) → safeOnData nn p = true → Inv base Q st →
+    Inv base Q (interpOnData e p st).1 ∧ ∀ o ∈ (interpOnData e p st).2, StrongOut base Q st.flags st.pfx o
+  | .done, st, _, _, _, hinv => ⟨hinv, by simp [interpOnData]⟩
+  | .act a k, st, nn, hnn, hs, hinv => by
+    simp only [safeOnData, Bool.and_eq_true] at hs
+    have h1 := actOnData_inv e base Q sp hev st a nn hnn hs.1 hinv
+    have h2 := interpOnData_inv e base Q sp hev k (actOnData e st a).1 nn hnn hs.2 h1.1
+    simp only [interpOnData]
+    refine ⟨h2.1, ?_⟩
+    intro o ho
+    rcases List.mem_append.mp ho with ho | ho
+    · exact h1.2 o ho
+    · have := h2.2 o ho
+      rwa [(actOnData_flags e st a).1, (actOnData_flags e st a).2] at this
+  | .ite c t el, st, nn, hnn, hs, hinv => by
+    simp only [safeOnData, Bool.and_eq_true] at hs
+    simp only [interpOnData]
+    by_cases hc : condOnData e st c = true
+    · simp only [hc, if_true]
+      exact interpOnData_inv e base Q sp hev t st nn hnn hs.1 hinv
+    · have hc' : condOnData e st c = false := by simpa using hc
+      simp only [hc', Bool.false_eq_true, if_false]
+      refine interpOnData_inv e base Q sp hev el st _ ?_ hs.2 hinv
+      intro h
+      rcases (Bool.or_eq_true _ _).mp h with h | h
+      · exact hnn h
+      · have : c = .destIsNull := by simpa using h
+        subst this
+        simpa [condOnData] using hc'
+
+/-! ### one step of the community, and histories -/
+
+theorem step_weak (st : St) (ev : Ev) : ∀ o ∈ (step st ev).2, WeakOut st.flags st.pfx o := by
   cases ev with
-  | setFlags f => simp [step] at hmem
-  | data ip sp c d p =>
-    have hexit : ∀ o ∈ (exitBranch st c d (.data ip sp c d p)).2,
-        StepOut (exitBranch st c d (.data ip sp c d p)).1 st.flags st.pfx o := by
-      intro o hmem
-      unfold exitBranch at hmem ⊢
-      by_cases hn : d.isNull = true
-      · simp [hn] at hmem
-      · simp only [hn] at hmem ⊢
-        exact Or.inr (viaSock_out _ _ _ o hmem)
-    simp only [step] at hmem ⊢
-    cases hfind : st.circs.find? (fun x => x.cid == c) with
-    | none => simp only [hfind] at hmem ⊢; exact hexit o hmem
-    | some ci =>
-      simp only [hfind] at hmem ⊢
-      by_cases h1 : (ci.hopIp == ip && ci.hopPort == sp) = true
-      · simp only [h1, if_true] at hmem ⊢
-        by_cases h2 : (localKind st.pfx ci p == 1 && !st.tunnelEp) = true
-        · simp [h2] at hmem
-        · simp only [h2] at hmem ⊢
-          simp at hmem
-          exact Or.inl ⟨_, _, hmem⟩
-      · simp only [h1] at hmem ⊢; exact hexit o hmem
-  | open4 c => exact Or.inr (viaSock_out _ _ _ o hmem)
-  | open6 c => exact Or.inr (viaSock_out _ _ _ o hmem)
-  | resolved c idx infos => exact Or.inr (viaSock_out _ _ _ o hmem)
-  | outside c v6 host port payload => exact Or.inr (viaSock_out _ _ _ o hmem)
+  | setFlags f => simp [step]
+  | data ip sp c d p => exact interpOnData_weak _ _ _
+  | open4 c => exact viaSock_weak _ _ _
+  | open6 c => exact viaSock_weak _ _ _
+  | resolved c idx infos => exact viaSock_weak _ _ _
+  | outside c v6 host port payload => exact viaSock_weak _ _ _
 
 theorem step_inv (base : List (Nat × Bytes)) (P : List Ev) (st : St) (ev : Ev) (hinv : Inv base P st) :
-    Inv base (ev :: P) (step st ev).1 := by
-  have keep : Inv base (ev :: P) st := fun s hs => ⟨(hinv s hs).1, (hinv s hs).2.mono _⟩
+    Inv base (ev :: P) (step st ev).1 ∧ ∀ o ∈ (step st ev).2, StrongOut base (ev :: P) st.flags st.pfx o := by
   cases ev with
-  | setFlags f => exact keep
+  | setFlags f => exact ⟨hinv.mono _, by simp [step]⟩
   | data ip sp c d p =>
-    have hexit : Inv base (Ev.data ip sp c d p :: P) (exitBranch st c d (Ev.data ip sp c d p)).1 := by
-      unfold exitBranch
-      split
-      · exact keep
-      · rename_i hn
-        refine viaSock_inv base P st c _ hinv ?_
-        intro ip' sp' c' d' p' he
-        cases he
-        exact ⟨rfl, by simpa using hn⟩
-    simp only [step]
-    split
-    · split
-      · split <;> exact keep
-      · exact hexit
-    · exact hexit
-  | open4 c => exact viaSock_inv base P st c _ hinv (by intro _ _ _ _ _ he; cases he)
-  | open6 c => exact viaSock_inv base P st c _ hinv (by intro _ _ _ _ _ he; cases he)
-  | resolved c idx infos => exact viaSock_inv base P st c _ hinv (by intro _ _ _ _ _ he; cases he)
-  | outside c v6 host port payload => exact viaSock_inv base P st c _ hinv (by intro _ _ _ _ _ he; cases he)
-
+    exact interpOnData_inv ⟨ip, sp, c, d, p⟩ base _ sp List.mem_cons_self Gen.on_data_prog st false (by simp)
+      on_data_prog_safe' (hinv.mono _)
+  | open4 c => exact viaSock_inv base P st c _ hinv
+  | open6 c => exact viaSock_inv base P st c _ hinv
+  | resolved c idx infos => exact viaSock_inv base P st c _ hinv
+  | outside c v6 host port payload => exact viaSock_inv base P st c _ hinv
 
 theorem step_pfx (st : St) (ev : Ev) : (step st ev).1.pfx = st.pfx := by
   cases ev with
   | setFlags f => rfl
-  | data ip sp c d p =>
-    have hexit : (exitBranch st c d (.data ip sp c d p)).1.pfx = st.pfx := by
-      unfold exitBranch; split
-      · rfl
-      · exact (viaSock_flags _ _ _).2
-    simp only [step]
-    split
-    · split
-      · split <;> rfl
-      · exact hexit
-    · exact hexit
+  | data ip sp c d p => exact (interpOnData_flags _ _ _).2
   | open4 c => exact (viaSock_flags _ _ _).2
   | open6 c => exact (viaSock_flags _ _ _).2
   | resolved c idx infos => exact (viaSock_flags _ _ _).2
   | outside c v6 host port payload => exact (viaSock_flags _ _ _).2
+
+theorem step_queue (st : St) (ev : Ev) (h : ∀ s ∈ st.socks, s.queue.length ≤ Gen.QUEUE_MAXLEN) :
+    ∀ s ∈ (step st ev).1.socks, s.queue.length ≤ Gen.QUEUE_MAXLEN := by
+  cases ev with
+  | setFlags f => exact h
+  | data ip sp c d p => exact interpOnData_queue _ _ _ h
+  | open4 c => exact viaSock_queue _ _ _ h
+  | open6 c => exact viaSock_queue _ _ _ h
+  | resolved c idx infos => exact viaSock_queue _ _ _ h
+  | outside c v6 host port payload => exact viaSock_queue _ _ _ h
 
 theorem run_pfx : ∀ (evs : List Ev) (st : St), (run st evs).1.pfx = st.pfx
   | [], _ => rfl
@@ -547,24 +927,23 @@ theorem run_inv (base : List (Nat × Bytes)) : ∀ (evs P : List Ev) (st : St), 
     Inv base (evs.reverse ++ P) (run st evs).1
   | [], P, st, h => by simpa [run] using h
   | ev :: evs, P, st, h => by
-    have := run_inv base evs (ev :: P) (step st ev).1 (step_inv base P st ev h)
+    have := run_inv base evs (ev :: P) (step st ev).1 (step_inv base P st ev h).1
     simpa [run, List.reverse_cons, List.append_assoc] using this
 
 theorem step_emit_opened (base : List (Nat × Bytes)) (P : List Ev) (st : St) (ev : Ev) (hinv : Inv base P st)
     (c : Nat) (v : Bool) (data : Bytes) (dest : Dest) (hmem : Out.emit c v data dest ∈ (step st ev).2) :
     ∃ ip, (c, ip) ∈ base ∧ ∃ sp d p, Ev.data ip sp c d p ∈ ev :: P ∧ d.isNull = false := by
-  rcases step_out st ev _ hmem with ⟨c', k, h⟩ | ⟨s', hs', hso⟩
+  rcases (step_inv base P st ev hinv).2 _ hmem with ⟨c', k, h⟩ | ⟨s', hb, hi, hso⟩
   · cases h
-  · have hi := step_inv base P st ev hinv s' hs'
-    rcases hso with (⟨h, p, he⟩ | ⟨v', data', dest', he, _, _, ht⟩) | ⟨payload, src, he, _⟩
+  · rcases hso with (⟨h, p, he⟩ | ⟨v', data', dest', he, _, _, ht⟩) | ⟨payload, src, he, _⟩
     · cases he
     · cases he
       have hen : s'.enabled = true := by
         rcases ht with ht | ht
-        · exact hi.2.2.1 ht
-        · exact hi.2.2.1 (hi.2.1 ht)
-      obtain ⟨sp, d, p, hm, hn⟩ := hi.2.2.2 hen
-      exact ⟨s'.hopIp, hi.1, sp, d, p, hm, hn⟩
+        · exact hi.2.1 ht
+        · exact hi.2.1 (hi.1 ht)
+      obtain ⟨sp, d, p, hm, hn⟩ := hi.2.2 hen
+      exact ⟨s'.hopIp, hb, sp, d, p, hm, hn⟩
     · cases he
 
 theorem run_emit (base : List (Nat × Bytes)) : ∀ (evs P : List Ev) (st : St), Inv base P st →
@@ -581,93 +960,8 @@ theorem run_emit (base : List (Nat × Bytes)) : ∀ (evs P : List Ev) (st : St),
       simp only [List.reverse_cons, List.append_assoc, List.mem_append]
       exact Or.inr (by simpa using hm)
     · obtain ⟨ip, hb, sp, d, p, hm, hn⟩ :=
-        run_emit base evs (ev :: P) (step st ev).1 (step_inv base P st ev hinv) fl c v data dest h
+        run_emit base evs (ev :: P) (step st ev).1 (step_inv base P st ev hinv).1 fl c v data dest h
       exact ⟨ip, hb, sp, d, p, by simpa [List.reverse_cons, List.append_assoc] using hm, hn⟩
-
-/-! ### the queue bound -/
-
-theorem pushBounded_len (q : List (Bytes × Dest)) (x : Bytes × Dest) : (pushBounded q x).length ≤ Gen.QUEUE_MAXLEN := by
-  simp [pushBounded]; omega
-
-theorem sendto_queue (fl : List Nat) (pfx : Bytes) (s : Sock) (data : Bytes) (dest : Dest)
-    (h : s.queue.length ≤ Gen.QUEUE_MAXLEN) : (sendto fl pfx s data dest).1.queue.length ≤ Gen.QUEUE_MAXLEN := by
-  unfold sendto
-  split
-  · exact h
-  · split
-    · exact h
-    · split
-      · exact h
-      · simp only
-        split <;> (split <;> first | exact pushBounded_len _ _ | exact h)
-
-theorem flush_queue (fl : List Nat) (pfx : Bytes) : ∀ (q : List (Bytes × Dest)) (s : Sock),
-    s.queue.length ≤ Gen.QUEUE_MAXLEN → (flush fl pfx s q).1.queue.length ≤ Gen.QUEUE_MAXLEN
-  | [], s, h => h
-  | (d, dst) :: rest, s, h => by
-    simp only [flush]
-    exact flush_queue fl pfx rest _ (sendto_queue fl pfx s d dst h)
-
-theorem sockStep_queue (fl : List Nat) (pfx : Bytes) (s : Sock) (ev : Ev) (h : s.queue.length ≤ Gen.QUEUE_MAXLEN) :
-    (sockStep fl pfx s ev).1.queue.length ≤ Gen.QUEUE_MAXLEN := by
-  cases ev with
-  | setFlags f => exact h
-  | data ip sp c d p =>
-    simp only [sockStep]
-    split
-    · split
-      · exact sendto_queue _ _ _ _ _ h
-      · exact h
-    · exact sendto_queue _ _ _ _ _ h
-  | open4 c => simp only [sockStep]; split <;> exact h
-  | open6 c =>
-    simp only [sockStep]
-    split
-    · exact flush_queue _ _ _ _ (by simp)
-    · exact h
-  | resolved c idx infos =>
-    simp only [sockStep]
-    split
-    · exact h
-    · split
-      · exact h
-      · exact sendto_queue _ _ _ _ _ h
-  | outside c v6 host port payload =>
-    simp only [sockStep]
-    split
-    · exact h
-    · split <;> exact h
-
-theorem viaSock_queue (st : St) (cid : Nat) (ev : Ev) (h : ∀ s ∈ st.socks, s.queue.length ≤ Gen.QUEUE_MAXLEN) :
-    ∀ s ∈ (viaSock st cid ev).1.socks, s.queue.length ≤ Gen.QUEUE_MAXLEN := by
-  unfold viaSock
-  split
-  · exact h
-  · rename_i s hf
-    intro x hx
-    rcases mem_setSock hx with hx | hx
-    · exact h x hx
-    · subst hx; exact sockStep_queue _ _ _ _ (h s (find_cid hf).1)
-
-theorem step_queue (st : St) (ev : Ev) (h : ∀ s ∈ st.socks, s.queue.length ≤ Gen.QUEUE_MAXLEN) :
-    ∀ s ∈ (step st ev).1.socks, s.queue.length ≤ Gen.QUEUE_MAXLEN := by
-  cases ev with
-  | setFlags f => exact h
-  | data ip sp c d p =>
-    have hexit : ∀ s ∈ (exitBranch st c d (.data ip sp c d p)).1.socks, s.queue.length ≤ Gen.QUEUE_MAXLEN := by
-      unfold exitBranch; split
-      · exact h
-      · exact viaSock_queue _ _ _ h
-    simp only [step]
-    split
-    · split
-      · split <;> exact h
-      · exact hexit
-    · exact hexit
-  | open4 c => exact viaSock_queue _ _ _ h
-  | open6 c => exact viaSock_queue _ _ _ h
-  | resolved c idx infos => exact viaSock_queue _ _ _ h
-  | outside c v6 host port payload => exact viaSock_queue _ _ _ h
 
 /-! ## definitions used by the statements in Props.lean -/
 
